@@ -15,6 +15,30 @@ CHECKS = {
     ),
 }
 
+GRAMMAR_NOTE = "Bounded: grammar depth/leaf sets, parameter levels and alphabets listed in evidence.coverage.bounds; float tolerances are derived (DESIGN 2.5) not proved; JAX autodiff trusted as Jacobian oracle."
+CHECKS.update({
+    "C01": (
+        "bounded-exhaustive enumeration of a typed grammar of bijection expressions (BFS by depth, canonical-form dedup) x parameter levels x boundary-directed input alphabet, executed on the real objects",
+        "Every well-typed expression tree up to the depth bound (quick: 20 representative leaves, depth<=2, ~1.5k trees; thorough: all leaf configurations, depth<=3, ~15k trees), plus the bijection of every flow factory, is built for real and round-tripped in both directions (domain->codomain->domain, codomain->domain->codomain, image points) at every parameter level, condition and alphabet input (interval ends, knots, +-max_val, their float neighbours, magnitudes to 1e4), with conditioning-scaled tolerances from the autodiff Jacobian; plain and and-log-det points are compared.",
+        GRAMMAR_NOTE, "DESIGN.md section 3 C01"),
+    "C02": (
+        "same exhaustive grammar exploration; oracle = slogdet of the autodiff Jacobian of the plain method (one-sided set at kinks)",
+        "For every enumerated expression, non-initial parameter level, condition and alphabet input the reported forward and inverse log-determinants are compared with slogdet(jacfwd(plain transform / inverse)), an oracle sharing nothing with the hand-written formulas; scalar shape of the log-det is checked.",
+        GRAMMAR_NOTE + " Saturated points (singular value < 1e-5) are skipped and counted.", "DESIGN.md section 3 C02"),
+    "C08": (
+        "exhaustive grammar exploration against a reference interpreter of the combinator definitions",
+        "Every combinator expression up to the depth bound, with every valid axis (negative included), every Partial index kind and mixed conditional/unconditional children, is compared method by method (4 methods + log-det) with a ~150-line interpreter that implements Chain/Scan/Vmap/Concatenate/Stack/Partial/Invert/Reshape/EmbedCondition by their definitions in NumPy over the children's own methods; declared shape/cond_shape are compared with NumPy's shape calculus; merge_chains, indexing, slicing and iteration must not change the function.",
+        GRAMMAR_NOTE, "DESIGN.md section 3 C08"),
+    "C10": (
+        "explicit enumeration of the bisection state machine's inputs (function family x root position x interval x tol x max_iter x dtype) on the real inverter, plus a traced leg under jax.disable_jit recording every evaluation point",
+        "All ~77k combinations of 6 increasing function shapes, 3 slopes, 13 root positions (inside, on either end, one ulp outside, 3/pi widths and 1e6 away on both sides, exact-midpoint and dyadic), 4 initial intervals, 8 tolerances, 5 max_iter values and 2 dtypes are solved by the real AutoregressiveBisectionInverter and judged against the outcome-level error bound; 1200 searches run un-jitted with the while_loops as Python loops and an evaluation horizon; triangular maps of dimension 1-6 with coupling and real BlockAutoregressiveNetworks are inverted end to end with the propagated bound.",
+        "Function family and bounds as listed in evidence; error bound assumes a doubling expansion (factor-2 slack).", "DESIGN.md section 3 C10"),
+    "C15": (
+        "exhaustive enumeration of (n, batch_size, val_prop, condition, epochs) with the complete call history of the real fit_to_data observed through the user-supplied loss and optimiser",
+        "Every dataset size n (quick 2..20, thorough 2..60), every batch_size 1..n+5, 7 validation proportions, with/without condition, 1-4 epochs is run through the real fit_to_data on index-tagged rows; the recorded history of every loss call (rows, condition rows, key, train/validation, update marks) is judged: partition, pairing, no duplicates, only a trailing remainder dropped, no validation row in a gradient step, fresh keys, reproducibility.",
+        "Split sizes read from train_val_split and only required to be sane; a traced loss call is a training step.", "DESIGN.md section 3 C15"),
+})
+
 PENDING_REASON = "check not built yet in this revision (work in progress; see DESIGN.md section 3 for the planned bounded-exhaustive check)"
 
 
